@@ -230,29 +230,30 @@ theorem mainX_good {K : Ctx} (wf : K.WF) : GoodX (mainX K).withD :=
 /-- the context while the selector expression is evaluated: the cells of the main program do not
     take part, everything allocated from `nB` on corresponds by the shift `d + 3` (the nested
     evaluator of the selector has allocated its three builtins first) -/
-def K1 (K : Ctx) (nB aN oN : Nat) (progB : Program) : Ctx :=
-  { σ := fun i => if i < nB then K.σ i else i + (K.d + 3), D := fun i => nB ≤ i, a0 := aN, o0 := oN,
-    m := nB, d := K.d + 3, progA := Program.empty, progB := progB }
+def K1 (K : Ctx) (hA hB : Heap) (progB : Program) : Ctx :=
+  { σ := fun i => if i < hB.cells.size then K.σ i else i + (K.d + 3), D := fun i => hB.cells.size ≤ i,
+    a0 := hB.arrs.size, o0 := hB.objs.size, m := hB.cells.size, d := K.d + 3, progA := Program.empty,
+    progB := progB, fz := hB.cells.size, fzA := hA.cells.size, snapA := hA, snapB := hB }
 
 def X1 (K1 : Ctx) (baseA baseB : List Frame) : XCtx :=
   { toCtx := K1, allowD := false, allow := fun _ => false, baseA := baseA, baseB := baseB, inner := false,
     trackRoot := false }
 
-theorem K1_wf {K : Ctx} (wf : K.WF) {nB : Nat} (hm : K.m ≤ nB) (aN oN : Nat) (progB : Program) :
-    (K1 K nB aN oN progB).WF := by
+theorem K1_wf {K : Ctx} (wf : K.WF) (hA hB : Heap) (hm : K.m ≤ hB.cells.size) (progB : Program) :
+    (K1 K hA hB progB).WF := by
   refine ⟨?_, ?_, fun i h => h, ?_⟩
   · intro i hi
-    have : ¬ i < nB := Nat.not_lt.mpr hi
+    have : ¬ i < hB.cells.size := Nat.not_lt.mpr hi
     simp only [K1, this, ↓reduceIte]
   · intro i j h
     simp only [K1] at h
-    by_cases hi : i < nB <;> by_cases hj : j < nB <;> simp only [hi, hj, ↓reduceIte] at h
+    by_cases hi : i < hB.cells.size <;> by_cases hj : j < hB.cells.size <;> simp only [hi, hj, ↓reduceIte] at h
     · exact wf.inj i j h
     · have := wf.σ_lt hi hm; omega
     · have := wf.σ_lt hj hm; omega
     · omega
   · intro i hi
-    have hi' : i < nB := hi
+    have hi' : i < hB.cells.size := hi
     have := wf.σ_lt hi' hm
     simp only [K1, hi', ↓reduceIte]
     omega
@@ -260,17 +261,17 @@ theorem K1_wf {K : Ctx} (wf : K.WF) {nB : Nat} (hm : K.m ≤ nB) (aN oN : Nat) (
 /-- the context after the selector: the cells the evaluation of the expression allocated (from
     `c + 1` up to `eB`) drop out; the `$` cell `c` of run B corresponds to the fresh root `rA` of
     run A -/
-def K2 (K : Ctx) (nB c eB rA : Nat) (prog progB : Program) : Ctx :=
+def K2 (K : Ctx) (nB c eB rA : Nat) (pl : Nat → Prop) (prog progB : Program) : Ctx :=
   { σ := fun i => if i < nB then K.σ i else if i = c then rA else if i < eB then i + (K.d + 3) else i + (K.d + 4),
-    D := fun i => if i < nB then K.D i else (i ≤ c ∨ eB ≤ i),
+    D := fun i => if i < nB then K.D i else (i < eB → pl i),
     a0 := 0, o0 := 0, m := eB, d := K.d + 4, progA := prog, progB := progB }
 
-theorem K2_σ_cases {K : Ctx} (wf : K.WF) {nB c eB rA : Nat} (hm : K.m ≤ nB) (h1 : nB ≤ c) (h2 : c < eB)
-    (prog progB : Program) (i : Nat) :
-    (i < nB ∧ (K2 K nB c eB rA prog progB).σ i = K.σ i ∧ K.σ i < nB + K.d) ∨
-    (i = c ∧ (K2 K nB c eB rA prog progB).σ i = rA) ∨
-    (nB ≤ i ∧ i ≠ c ∧ i < eB ∧ (K2 K nB c eB rA prog progB).σ i = i + (K.d + 3)) ∨
-    (eB ≤ i ∧ (K2 K nB c eB rA prog progB).σ i = i + (K.d + 4)) := by
+theorem K2_σ_cases {K : Ctx} (wf : K.WF) {nB c eB rA : Nat} {pl : Nat → Prop} (hm : K.m ≤ nB) (h1 : nB ≤ c)
+    (h2 : c < eB) (prog progB : Program) (i : Nat) :
+    (i < nB ∧ (K2 K nB c eB rA pl prog progB).σ i = K.σ i ∧ K.σ i < nB + K.d) ∨
+    (i = c ∧ (K2 K nB c eB rA pl prog progB).σ i = rA) ∨
+    (nB ≤ i ∧ i ≠ c ∧ i < eB ∧ (K2 K nB c eB rA pl prog progB).σ i = i + (K.d + 3)) ∨
+    (eB ≤ i ∧ (K2 K nB c eB rA pl prog progB).σ i = i + (K.d + 4)) := by
   by_cases hi : i < nB
   · left
     refine ⟨hi, ?_, wf.σ_lt hi hm⟩
@@ -288,9 +289,9 @@ theorem K2_σ_cases {K : Ctx} (wf : K.WF) {nB c eB rA : Nat} (hm : K.m ≤ nB) (
         refine ⟨Nat.le_of_not_lt hie, ?_⟩
         simp only [K2, hi, hic, hie, ↓reduceIte]
 
-theorem K2_wf {K : Ctx} (wf : K.WF) {nB c eB rA : Nat} (hm : K.m ≤ nB) (h1 : nB ≤ c) (h2 : c < eB)
-    (hr : rA = eB + (K.d + 3)) (prog progB : Program) : (K2 K nB c eB rA prog progB).WF := by
-  have hc := K2_σ_cases wf (rA := rA) hm h1 h2 prog progB
+theorem K2_wf {K : Ctx} (wf : K.WF) {nB c eB rA : Nat} (pl : Nat → Prop) (hm : K.m ≤ nB) (h1 : nB ≤ c) (h2 : c < eB)
+    (hr : rA = eB + (K.d + 3)) (prog progB : Program) : (K2 K nB c eB rA pl prog progB).WF := by
+  have hc := K2_σ_cases wf (rA := rA) (pl := pl) hm h1 h2 prog progB
   refine ⟨?_, ?_, ?_, ?_⟩
   · intro i hi
     have hi' : eB ≤ i := hi
@@ -310,10 +311,10 @@ theorem K2_wf {K : Ctx} (wf : K.WF) {nB c eB rA : Nat} (hm : K.m ≤ nB) (h1 : n
     have hi' : eB ≤ i := hi
     have a1 : ¬ i < nB := by omega
     simp only [K2, a1, ↓reduceIte]
-    exact .inr hi'
+    intro h; exact absurd h (Nat.not_lt.mpr hi')
   · intro i hi
     have hi' : i < eB := hi
-    show (K2 K nB c eB rA prog progB).σ i < eB + (K.d + 4)
+    show (K2 K nB c eB rA pl prog progB).σ i < eB + (K.d + 4)
     rcases hc i with ⟨a1, e1, b1⟩ | ⟨a1, e1⟩ | ⟨a1, a2, a3, e1⟩ | ⟨a1, e1⟩ <;> rw [e1] <;> omega
 
 
@@ -328,33 +329,52 @@ theorem valR_plain_main {K : Ctx} (h0 : K.a0 = 0) (h0' : K.o0 = 0) (hp : K.progA
   ValR.of_plain hv (LiveV.plain hv (fun a _ => by rw [h0]; exact Nat.zero_le _)
     (fun o _ => by rw [h0']; exact Nat.zero_le _) (fun i _ => by rw [hp]))
 
-/-- **the heaps after the selector / after the rule `$ = E`** are related in the context `K2` -/
+theorem plain_of_renV {σ : Nat → Nat} {v : Val} (h : Val.plain (renV σ v)) : Val.plain v := by
+  cases v with
+  | str s sp => cases sp <;> simp_all [Val.plain, renV, renSpec]
+  | nil sp => cases sp <;> simp_all [Val.plain, renV, renSpec]
+  | native f b sp => cases b <;> cases sp <;> simp_all [Val.plain, renV, renSpec]
+  | _ => trivial
+
+/-- **the heaps after the selector / after the rule `$ = E`** are related in the context `K2`:
+    what stays in the relation, beside the main program's cells, are the cells allocated since
+    whose value mentions no cell — the converted document, the members of the containers the
+    expression created — and the `$` cell itself, which corresponds to the fresh root of run A -/
 theorem junction_heap {K : Ctx} (wf : K.WF) (h0 : K.a0 = 0) (h0' : K.o0 = 0) (prog progB : Program)
     (hKA : K.progA = prog) (hKB : K.progB = progB) (hfun : prog.functions = progB.functions)
     {hA hB hAe hBe : Heap} (hold : HR K hA hB)
-    (hK1 : HR (K1 K hB.cells.size hB.arrs.size hB.objs.size progB) hAe hBe)
-    (pA : ∀ i, i < hA.cells.size → hAe.get i = hA.get i)
-    (pAa : ∀ k, k < hA.arrs.size → hAe.arr k = hA.arr k)
-    (pAo : ∀ k, k < hA.objs.size → hAe.obj k = hA.obj k)
-    (pB : ∀ i, i < hB.cells.size → hBe.get i = hB.get i)
-    (pBa : ∀ k, k < hB.arrs.size → hBe.arr k = hB.arr k)
-    (pBo : ∀ k, k < hB.objs.size → hBe.obj k = hB.obj k)
+    (hK1 : HR (K1 K hA hB progB) hAe hBe)
     (c : Nat) (hc1 : hB.cells.size ≤ c) (hc2 : c < hBe.cells.size)
-    (hplain : ∀ i, hB.cells.size ≤ i → i < c → Val.plain (hBe.get i))
-    (hmemA : ∀ k, hB.arrs.size ≤ k → ∀ x ∈ (hBe.arr k).toList, hB.cells.size ≤ x ∧ x < c)
-    (hmemO : ∀ k, hB.objs.size ≤ k → ∀ kc ∈ hBe.obj k, hB.cells.size ≤ kc.2 ∧ kc.2 < c)
+    (hmemA : ∀ k, hB.arrs.size ≤ k → ∀ x ∈ (hBe.arr k).toList, x ≠ c ∧ Val.plain (hBe.get x))
+    (hmemO : ∀ k, hB.objs.size ≤ k → ∀ kc ∈ hBe.obj k, kc.2 ≠ c ∧ Val.plain (hBe.get kc.2))
     (w : Val) (hw : Val.plain w) :
-    HR (K2 K hB.cells.size c hBe.cells.size hAe.cells.size prog progB)
+    HR (K2 K hB.cells.size c hBe.cells.size hAe.cells.size (fun i => Val.plain (hBe.get i)) prog progB)
       ((hAe.alloc .unknown).2.set hAe.cells.size w) (hBe.set c w) := by
   have hm : K.m ≤ hB.cells.size := hold.mle
   have hszc : hAe.cells.size = hBe.cells.size + (K.d + 3) := hK1.szc
-  have hcases := K2_σ_cases wf (rA := hAe.cells.size) hm hc1 hc2 prog progB
-  have hp2 : (K2 K hB.cells.size c hBe.cells.size hAe.cells.size prog progB).progA.functions =
-      (K2 K hB.cells.size c hBe.cells.size hAe.cells.size prog progB).progB.functions := hfun
+  have hszA : hA.cells.size = hB.cells.size + K.d := hold.szc
+  have hcases := K2_σ_cases wf (rA := hAe.cells.size) (pl := fun i => Val.plain (hBe.get i)) hm hc1 hc2 prog progB
+  have hp2 : (K2 K hB.cells.size c hBe.cells.size hAe.cells.size (fun i => Val.plain (hBe.get i)) prog progB).progA.functions =
+      (K2 K hB.cells.size c hBe.cells.size hAe.cells.size (fun i => Val.plain (hBe.get i)) prog progB).progB.functions := hfun
   have hle : hB.cells.size ≤ hBe.cells.size := Nat.le_trans hc1 (Nat.le_of_lt hc2)
+  -- what the evaluation did not touch
+  have fr := hK1.froz
+  have pB : ∀ i, i < hB.cells.size → hBe.get i = hB.get i := fun i hi =>
+    fr.cellB i hi (fun (h : hB.cells.size ≤ i) => absurd hi (Nat.not_lt.mpr h))
+  have pA : ∀ j, j < hA.cells.size → hAe.get j = hA.get j := by
+    intro j hj
+    refine fr.cellA j hj (fun i (hi : hB.cells.size ≤ i) e => ?_)
+    have hn : ¬ i < hB.cells.size := Nat.not_lt.mpr hi
+    have : (K1 K hA hB progB).σ i = i + (K.d + 3) := by simp only [K1, hn, ↓reduceIte]
+    rw [this] at e
+    omega
+  have pBa : ∀ k, k < hB.arrs.size → hBe.arr k = hB.arr k := fun k hk => fr.arrB k hk
+  have pAa : ∀ k, k < hB.arrs.size → hAe.arr k = hA.arr k := fun k hk => fr.arrA k hk
+  have pBo : ∀ k, k < hB.objs.size → hBe.obj k = hB.obj k := fun k hk => fr.objB k hk
+  have pAo : ∀ k, k < hB.objs.size → hAe.obj k = hA.obj k := fun k hk => fr.objA k hk
   -- old live things keep their relation
-  have tr : Trans K (K2 K hB.cells.size c hBe.cells.size hAe.cells.size prog progB) hB.cells.size
-      hBe.cells.size := by
+  have tr : Trans K (K2 K hB.cells.size c hBe.cells.size hAe.cells.size (fun i => Val.plain (hBe.get i)) prog progB)
+      hB.cells.size hBe.cells.size := by
     refine ⟨?_, fun _ _ => Nat.zero_le _, fun _ _ => Nat.zero_le _, fun i _ => by
       show prog.functions[i]? = progB.functions[i]?
       rw [hfun]⟩
@@ -375,7 +395,20 @@ theorem junction_heap {K : Ctx} (wf : K.WF) (h0 : K.a0 = 0) (h0' : K.o0 = 0) (pr
     intro x hx
     rw [get_set]
     simp only [hx, false_and, ↓reduceIte]
-  refine ⟨?_, ?_, hK1.sza, Nat.zero_le _, hK1.szo, Nat.zero_le _, ?_, ?_, ?_⟩
+  have σmid : ∀ x, hB.cells.size ≤ x → x ≠ c → x < hBe.cells.size →
+      (K2 K hB.cells.size c hBe.cells.size hAe.cells.size (fun i => Val.plain (hBe.get i)) prog progB).σ x =
+        (K1 K hA hB progB).σ x := by
+    intro x x1 x2 x3
+    have hn : ¬ x < hB.cells.size := Nat.not_lt.mpr x1
+    simp only [K1, K2, hn, x2, x3, ↓reduceIte]
+  have dmid : ∀ x, hB.cells.size ≤ x → Val.plain (hBe.get x) →
+      (K2 K hB.cells.size c hBe.cells.size hAe.cells.size (fun i => Val.plain (hBe.get i)) prog progB).D x := by
+    intro x x1 hp
+    have hn : ¬ x < hB.cells.size := Nat.not_lt.mpr x1
+    show (if x < hB.cells.size then K.D x else _)
+    simp only [hn, ↓reduceIte]
+    exact fun _ => hp
+  refine ⟨?_, ?_, hK1.sza, Nat.zero_le _, hK1.szo, Nat.zero_le _, ?_, ?_, ?_, Froz.trivial rfl rfl rfl rfl⟩
   · rw [hsA, Heap.size_set, hszc]; show _ = _ + (K.d + 4); omega
   · rw [Heap.size_set]; exact Nat.le_refl _
   · -- cells
@@ -389,10 +422,11 @@ theorem junction_heap {K : Ctx} (wf : K.WF) (h0 : K.a0 = 0) (h0' : K.o0 = 0) (pr
         simp only [K2, a1, ↓reduceIte] at this
         exact this
       rw [e1]
+      have hltA : K.σ i < hA.cells.size := by omega
       have hlt : K.σ i < hAe.cells.size := by
-        have := hold.szc; omega
-      have hltA : K.σ i < hA.cells.size := by
-        have := hold.szc; omega
+        have := fr.fzA
+        have : hA.cells.size ≤ hAe.cells.size := this
+        omega
       rw [getA _ hlt, pA _ hltA, getB i (by omega), pB i a1]
       exact tr.valR (hold.cells i ⟨hD, a1⟩)
     · -- the `$` cell
@@ -405,21 +439,18 @@ theorem junction_heap {K : Ctx} (wf : K.WF) (h0 : K.a0 = 0) (h0' : K.o0 = 0) (pr
         rw [get_set]; simp only [hc2, and_self, ↓reduceIte]
       rw [e3, e4]
       exact valR_plain_main rfl rfl hp2 hw _
-    · -- a cell of the converted document
-      have hic : i < c := by
+    · -- a cell allocated since, holding a plain value
+      have hpl : Val.plain (hBe.get i) := by
         have := hi.1
         have hn : ¬ i < hB.cells.size := Nat.not_lt.mpr a1
         simp only [K2, hn, ↓reduceIte] at this
-        rcases this with h | h
-        · exact Nat.lt_of_le_of_ne h a2
-        · omega
+        exact this a3
       rw [e1, getA _ (by omega), getB i a2]
       have hk := hK1.cells i ⟨a1, a3⟩
-      have hσ1 : (K1 K hB.cells.size hB.arrs.size hB.objs.size progB).σ i = i + (K.d + 3) := by
+      have hσ1 : (K1 K hA hB progB).σ i = i + (K.d + 3) := by
         have hn : ¬ i < hB.cells.size := Nat.not_lt.mpr a1
         simp only [K1, hn, ↓reduceIte]
       rw [hσ1] at hk
-      have hpl := hplain i a1 hic
       rw [hk.1, renV_plain hpl]
       exact valR_plain_main rfl rfl hp2 hpl _
     · exact absurd hi2 (Nat.not_lt.mpr a1)
@@ -427,7 +458,7 @@ theorem junction_heap {K : Ctx} (wf : K.WF) (h0 : K.a0 = 0) (h0' : K.o0 = 0) (pr
     intro k _
     rw [Heap.size_set, set_arr, set_arr, alloc_arr]
     by_cases hk : k < hB.arrs.size
-    · rw [pAa k (by rw [hold.sza]; exact hk), pBa k hk]
+    · rw [pAa k hk, pBa k hk]
       exact tr.arrR (hold.arrs k (by rw [h0]; exact Nat.zero_le _))
     · have hk' : hB.arrs.size ≤ k := Nat.le_of_not_lt hk
       have har := hK1.arrs k hk'
@@ -438,23 +469,16 @@ theorem junction_heap {K : Ctx} (wf : K.WF) (h0 : K.a0 = 0) (h0' : K.o0 = 0) (pr
         simp only [Array.toList_map]
         apply List.map_congr_left
         intro x hx
-        obtain ⟨x1, x2⟩ := hmem x hx
-        have hn : ¬ x < hB.cells.size := Nat.not_lt.mpr x1
-        have hxc : ¬ x = c := Nat.ne_of_lt x2
-        have hxe : x < hBe.cells.size := Nat.lt_trans x2 hc2
-        simp only [K1, K2, hn, hxc, hxe, ↓reduceIte]
+        have hl := har.2 x hx
+        exact (σmid x hl.1 (hmem x hx).1 hl.2).symm
       · intro x hx
-        obtain ⟨x1, x2⟩ := hmem x hx
-        have hn : ¬ x < hB.cells.size := Nat.not_lt.mpr x1
-        refine ⟨?_, Nat.lt_trans x2 hc2⟩
-        show (if x < hB.cells.size then K.D x else _)
-        simp only [hn, ↓reduceIte]
-        exact .inl (Nat.le_of_lt x2)
+        have hl := har.2 x hx
+        exact ⟨dmid x hl.1 (hmem x hx).2, hl.2⟩
   · -- objects
     intro k _
     rw [Heap.size_set, set_obj, set_obj, alloc_obj]
     by_cases hk : k < hB.objs.size
-    · rw [pAo k (by rw [hold.szo]; exact hk), pBo k hk]
+    · rw [pAo k hk, pBo k hk]
       exact tr.memR (hold.objs k (by rw [h0']; exact Nat.zero_le _))
     · have hk' : hB.objs.size ≤ k := Nat.le_of_not_lt hk
       have hob := hK1.objs k hk'
@@ -464,17 +488,11 @@ theorem junction_heap {K : Ctx} (wf : K.WF) (h0 : K.a0 = 0) (h0' : K.o0 = 0) (pr
         unfold renM
         apply List.map_congr_left
         intro kc hkc
-        obtain ⟨x1, x2⟩ := hmem kc hkc
-        have hn : ¬ kc.2 < hB.cells.size := Nat.not_lt.mpr x1
-        have hxc : ¬ kc.2 = c := Nat.ne_of_lt x2
-        have hxe : kc.2 < hBe.cells.size := Nat.lt_trans x2 hc2
-        simp only [K1, K2, hn, hxc, hxe, ↓reduceIte]
+        have hl := hob.2 kc hkc
+        rw [σmid kc.2 hl.1 (hmem kc hkc).1 hl.2]
       · intro kc hkc
-        obtain ⟨x1, x2⟩ := hmem kc hkc
-        have hn : ¬ kc.2 < hB.cells.size := Nat.not_lt.mpr x1
-        refine ⟨?_, Nat.lt_trans x2 hc2⟩
-        show (if kc.2 < hB.cells.size then K.D kc.2 else _)
-        simp only [hn, ↓reduceIte]
-        exact .inl (Nat.le_of_lt x2)
+        have hl := hob.2 kc hkc
+        exact ⟨dmid kc.2 hl.1 (hmem kc hkc).2, hl.2⟩
+
 end Sel
 end Jqawk
